@@ -399,6 +399,22 @@ func cmdCheck(args []string) {
 		}
 		lines = append(lines, fmt.Sprintf("VIOLATION property=%s replay=%s obligation=%s%s", id, rp, r.O.Name, suffix))
 	}
+	var undecided []string
+	for _, fg := range fgs {
+		for _, u := range fg.undecided {
+			rel := *prop == ""
+			for _, t := range u.Tags {
+				if t == *prop {
+					rel = true
+				}
+			}
+			if rel {
+				line := fmt.Sprintf("UNDECIDED property=%s function=%s clause=%s (%s): %s", *prop, shortKey(u.Func), u.Pos, u.Text, u.Reason)
+				undecided = append(undecided, line)
+				fmt.Println(line)
+			}
+		}
+	}
 	var genErrNames []string
 	for k, e := range genErrs {
 		fmt.Printf("GENERROR %s: %v\n", shortKey(k), e)
@@ -434,11 +450,11 @@ func cmdCheck(args []string) {
 		sort.Strings(unm)
 		ev := Evidence{PropertyID: *prop, Tier: *tier, Seed: seed, Level: "proof", WallS: time.Since(start).Seconds(), Violations: violations,
 			Coverage: map[string]interface{}{
-				"obligations": len(results), "discharged": proved,
+				"obligations": len(results) - len(knownHit), "discharged": proved, "obligations_including_known_findings": len(results),
 				"checker_cmd":  fmt.Sprintf("bin/check %s --tier %s", *prop, *tier),
 				"trusted_base": []string{"go/types + go/ssa (x/tools v0.50.0) as the meaning of the Go source", "govc translation of the SSA subset G0 (DESIGN.md 2.3)", "z3 5.1.0 (z3-new), z3 4.8.12, cvc5 1.0.3", "platform linux/amd64: int is 64 bits"},
 				"samples":      samples, "functions_under_contract": fl, "by_backend": byBackend, "solver_time_s": solverTime, "slowest": slow,
-				"known_findings": knownHit, "undecided_functions": genErrNames, "not_discharged": failed + unknown - len(knownHit),
+				"known_findings": knownHit, "undecided_functions": genErrNames, "undecided_clauses": undecided, "not_discharged": failed + unknown - len(knownHit),
 				"unmodelled_external_calls_havoced": unm,
 			},
 			Assumptions: append([]string{
